@@ -552,8 +552,11 @@ func (x *Exec) evalModuleCall(o *types.Func, recvExpr ast.Expr, call *ast.CallEx
 	}
 	key := pk.Name + "." + funcKey(fd)
 	if d, ok := x.w.Contracts[key]; ok && !(len(x.frames) == 1 && x.top().fn == fd) {
-		x.callees[key] = true
-		return x.contractCall(o, d, args, st, call)
+		r := x.contractCall(o, d, args, st, call)
+		if _, out := r.(outsideDomain); !out {
+			x.callees[key] = true
+			return r
+		}
 	}
 	if recvExpr != nil {
 		x.requireNonNilIfDeref(args[0], st, call)
